@@ -191,6 +191,10 @@ def exhaustive_extra(ctx):
 
 
 def run(ctx):
+    if ctx.shard == 0:  # the repository's own pinned examples as one more workload (outcomes ignored)
+        from ..repotests import run_repo_tests
+
+        run_repo_tests(ctx, ("marker",), before_each=lambda: setattr(ctx, 'env_budget', ctx.env_cap_top))
     quick = ctx.tier == "quick"
     exhaustive_string(ctx)
     exhaustive_python(ctx)
@@ -206,6 +210,11 @@ def run(ctx):
 
 
 def replay(ctx, case):
+    if isinstance(case, dict) and case.get("kind") == "repo-test":
+        from ..repotests import run_repo_tests
+
+        run_repo_tests(ctx, nodeid=case["nodeid"])
+        return
     MM.clear_caches()
     ctx.stratum = case.get("stratum", "main")
     _run_tree(ctx, case["tree"], watchdog=60.0)
